@@ -221,7 +221,7 @@ func c18Matrix(c *Case) {
 
 func c18Cases(tier string) int {
 	if tier == "thorough" {
-		return 1 + 600000
+		return 1 + 3000000
 	}
 	return 1 + 60000
 }
